@@ -1,6 +1,7 @@
 import Hcl.Model.Dump
 import Hcl.Spec.DumpFormat
 import Hcl.Proofs.MemSorted
+import Hcl.Proofs.BankDump
 
 /-!
 # C16 — the state dump shows the true machine state, completely and parseably
@@ -117,3 +118,25 @@ theorem C16_memory_reachable (fl : Flags) (p : Program) (lines : List Bytes) (m 
 def exMem : Mem := [(5, 1), (7, 2), (4096, 3), (2 ^ 64 - 1, 255)]
 example : SortedFrom 0 exMem := by unfold exMem SortedFrom SortedFrom SortedFrom SortedFrom SortedFrom U64; decide
 example : (Dump.memToks exMem).length = 3 * 17 := by decide
+
+/-! ### the register banks -/
+
+/-- the text of a bank is the texts of its tokens -/
+theorem C16_bank_text (vals : AMap WireValue) (b : RegisterBank) :
+    Dump.bank vals b = String.join ((Dump.bankToks vals b).map Dump.BTok.text) := rfl
+
+/-- **every register of a bank with its value, and the bank's state**: `dump_bank` prints the opening with the bank's
+    label and N/S/B (bubbled wins over stalled), then -- separated only by line breaks -- one `name=value` item per
+    register of the bank, in declaration order, with the value its output wire holds now and as many hexadecimal digits
+    as its width needs, then the closing brace -/
+theorem C16_bank_registers (vals : AMap WireValue) (b : RegisterBank) :
+    ∃ body n, Dump.bankToks vals b = Dump.BTok.head b.label (Dump.statusOf vals b) :: body ++ [Dump.BTok.close, Dump.BTok.fin n] ∧
+      (∀ t ∈ body, t.inner = true) ∧ body.filterMap Dump.BTok.item? = b.signals.map (Dump.shownOf vals) :=
+  Dump.bankToks_shape vals b
+
+/-- **every declared bank, once**: for banks with pairwise distinct output letters, the banks printed are a
+    rearrangement of the declared banks (`P F D E M W` first, the others by letter) -/
+theorem C16_banks_all_printed (vals : AMap WireValue) (banks : List RegisterBank) (h : (banks.map Dump.letterOf).Nodup) :
+    Dump.customRegisters vals banks = String.join ((Dump.printedBanks banks).map (Dump.bank vals)) ∧
+    (Dump.printedBanks banks).Perm banks :=
+  ⟨rfl, Dump.printedBanks_perm banks h⟩
